@@ -135,6 +135,24 @@ def run_case(ctx, case, rng):
                                        'variable_tensor_in_model': 'stateful_op' in spec.classes}, base)
     return {}
   ctx.count('calibrations')
+  if n_sub > 1 and not ONE_SHOT[0]:
+    # the same statistics through ONE Calibrator object continued over all signatures (the documented flow for dependent
+    # signatures), instead of the fresh Calibrator per call that Quantizer.calibrate() builds
+    try:
+      from ai_edge_quantizer import calibrator as _cal, recipe_manager as _rm
+      rm_ = _rm.RecipeManager()
+      rm_.load_quantization_recipe(qt.get_quantization_recipe())
+      one = _cal.Calibrator(spec.content)
+      for s_ in spec.signatures:
+        if datasets.get(s_['key']):
+          one.calibrate(datasets[s_['key']], rm_, signature_key=s_['key'])
+      same, why_ = qsv_equal(full, one.get_model_qsvs())
+      ctx.count('single_calibrator_over_all_signatures')
+      if not same:
+        ctx.violation('one_calibrator_over_all_signatures_differs', {'multi_signature': True}, dict(base, why=why_))
+    except Exception as e:  # pylint: disable=broad-except
+      import traceback as _tb
+      ctx.violation('one_calibrator_over_all_signatures_raised', {'exc': common.exc_signature(e)[:80]}, dict(base, traceback=''.join(_tb.format_exception(e))[-700:]))
   # ---- reference fold per signature
   ref = recipes.reference_for(acc)
   compared = 0
